@@ -163,11 +163,11 @@ def main():
             })
     # rules added in the second half of the build (DESIGN.md 8.6 round 2, 8.8): appended to the technique of the check that owns them
     EXTRA = {
-        'C01': 'arity selection and the whole node -> op translation of SimOps evaluated (Engine M) on ~2400 stand-in nodes incl. helper methods; per-opcode specialisation of the dispatch chains; C17 order rules (evaluated traversals) and the evaluated schedule / memory-map rules of C07/C08 included',
+        'C01': 'arity selection and the whole node -> op translation of SimOps evaluated (Engine M) on ~2400 stand-in nodes incl. helper methods; per-opcode specialisation of the dispatch chains; LogicSim.s_ppo_to_ppi evaluated on a state-array stand-in (mdim 1..3) against the documented transfer; C17 order rules (evaluated traversals) and the evaluated schedule / memory-map rules of C07/C08 included',
         'C02': 'operand-mutation and whole-array-condition rules of the truth-table interpreter; per-opcode specialisation of merged dispatch arms; views of signal memory bound to locals',
         'C03': 'operand-wiring rule of C01 included; interval refinement on any comparison linear in z_cur/z_cap; both stimulus paths (s_to_c vector code; wave_assign_gpu for every thread of its launch) evaluated on 18 stand-in simulators (checks/c03_eval.py); the kernel _wave_eval evaluated (Engine M with array stand-ins, checks/kernel_eval.py) on ~300 single-gate situations (1450 in the thorough tier): BOUNDED evaluation next to the path rules, and the deciding rule when a restructured merge loop is outside the shapes the path engine parses (clauses settle, bounds); both capture paths (c_to_s + wave_capture_cpu / wave_capture_gpu) evaluated on 36 waveforms x 3 lanes x 5 capture times x sd in {0, 0.75} against what the waveform encodes (checks/capture_eval.py) (rows initial / final)',
         'C04': 'schedule, memory-map, dataset-selection and lane-control rules of C06-C08 included; the kernel _wave_eval evaluated (Engine M with array stand-ins, checks/kernel_eval.py) on ~300 single-gate situations (1450 in the thorough tier): BOUNDED evaluation next to the path rules, and the deciding rule when a restructured merge loop is outside the shapes the path engine parses (clauses cause: every output time = operand time + its delay entry with distinguishable delay tables, shift, monotone); both capture paths (c_to_s + wave_capture_cpu / wave_capture_gpu) evaluated on 36 waveforms x 3 lanes x 5 capture times x sd in {0, 0.75} against what the waveform encodes (checks/capture_eval.py) (rows earliest / latest)',
-        'C06': 'dataset selection evaluated for every mode with one/several datasets; absolute lane-control rule; no re-binding of kernel parameters; thread-index guards of the GPU kernels evaluated for every thread of an over-sized grid; sqrt(2) applied exactly once between c_to_s and the capture kernel; launch rules of C07 and overflow propagation (C13.overflow) included; both stimulus paths (s_to_c vector code; wave_assign_gpu for every thread of its launch) evaluated on 18 stand-in simulators (checks/c03_eval.py); both capture paths (c_to_s + wave_capture_cpu / wave_capture_gpu) evaluated on 36 waveforms x 3 lanes x 5 capture times x sd in {0, 0.75} against what the waveform encodes (checks/capture_eval.py) incl. CPU = GPU on s[3..7], s[10]; dtype flow of the capture sampling hash (F19); WaveSim / WaveSimCuda constructors evaluated with a recording base-class constructor (checks/wavesim_init_eval.py); kernel clause dataset (several delay datasets, every selection mode)',
+        'C06': 'dataset selection evaluated for every mode with one/several datasets; absolute lane-control rule; no re-binding of kernel parameters; thread-index guards of the GPU kernels evaluated for every thread of an over-sized grid; sqrt(2) applied exactly once between c_to_s and the capture kernel; launch rules of C07 and overflow propagation (C13.overflow) included; both stimulus paths (s_to_c vector code; wave_assign_gpu for every thread of its launch) evaluated on 18 stand-in simulators (checks/c03_eval.py); both capture paths (c_to_s + wave_capture_cpu / wave_capture_gpu) evaluated on 36 waveforms x 3 lanes x 5 capture times x sd in {0, 0.75} against what the waveform encodes (checks/capture_eval.py) incl. CPU = GPU on s[3..7], s[10]; dtype flow of the capture sampling hash (F19); WaveSim / WaveSimCuda constructors evaluated with a recording base-class constructor (checks/wavesim_init_eval.py); kernel clause dataset (several delay datasets, every selection mode); WaveSim.s_ppo_to_ppi evaluated on a state-array stand-in against the three documented row moves (C06.transfer)',
         'C07': 'the schedule / memory-map block of SimOps.__init__ evaluated (kvstatic/mapeval.py) on 100 generated stand-in netlists x strip_forks x c_reuse x capacities with a reference allocator: level partition, operands produced in earlier levels, release only after the last reading level - in the per-op form and, when the block is vectorised (index arrays over all ops, np.where, fancy += with the buffered semantics of numpy), on the array stand-in (structural rules as fall-back); memory-map rules of C08 included; wave_eval_gpu evaluated for every thread of an over-sized grid with a recording kernel stub (which op row and lane each thread evaluates)',
         'C08': 'pins / alloc / alias / size decided by the evaluated schedule / memory-map block (see C07); `released` only changed by order-preserving operations; schedule rules of C07 included',
         'C09': 'C09.history: kyupy\'s own Node / Line / Circuit constructors, removers, copy(), pickling and stats evaluated along 300 generated edit histories against a shadow model of the documented semantics; free_index and remove_dangling_nodes evaluated; C10.function included',
@@ -175,10 +175,10 @@ def main():
         'C11': 'C11.netlist: the Verilog transformer applied bottom-up (Engine M) to the parse trees of 29 module descriptions with stand-in graph classes, netlist compared with the meaning of the description (ports, every pin connection, constants, assigns, branch forks); bounded-exhaustive comparison of the compiled ignore-terminal with the comment language; per-call transformer construction; C10.function and C19 rules included; a function changed beyond the normal form on which no rule fires ends the check with exit 2 (undecided), never a pass',
         'C12': 'operand-mutation rule, whole-array-condition (lane independence) rule, aliased call shapes used by LogicSim',
         'C13': 'explicit accumulation columns resolved through the unpacking of a_ctrl[line]; kernel rules of C03, operand-wiring rule of C01 and memory-map rules of C08 included; the kernel _wave_eval evaluated (Engine M with array stand-ins, checks/kernel_eval.py) on ~300 single-gate situations (1450 in the thorough tier): BOUNDED evaluation next to the path rules, and the deciding rule when a restructured merge loop is outside the shapes the path engine parses (clauses activity, overflow: marker clear => waveform equals the unlimited-capacity one); both capture paths (c_to_s + wave_capture_cpu / wave_capture_gpu) evaluated on 36 waveforms x 3 lanes x 5 capture times x sd in {0, 0.75} against what the waveform encodes (checks/capture_eval.py) (all rows s[3..10]); switching-activity epilogue evaluated with stale memory behind the waveform; abuf shape / element type from the evaluated WaveSim constructor',
-        'C14': 'C14.records: SdfTransformer applied bottom-up to the parse tree of a small delay file; C14.landing: iopaths / interconnects evaluated on stand-in circuits (which delays[line, polarity] cell each entry lands in), array shape and axis move by recording stubs; per-call transformer construction; C11 rules included',
+        'C14': 'C14.records: SdfTransformer applied bottom-up to the parse tree of a small delay file; C14.landing: iopaths / interconnects evaluated on stand-in circuits (which delays[line, polarity] cell each entry lands in), array shape and axis move by recording stubs; per-call transformer construction; C11 rules included; the recording delay array accepts the method spelling transpose(3, 0, 1, 2) of moveaxis(-1, 0)',
         'C15': 'interpret() evaluated on every documented alias, foreign values and nested iterables; render table evaluated',
         'C16': 'memory-map rules of C08 included; nothing in the per-op iteration writes the output location after the callback was called (the callback sees the final value and what it writes stays); an iterable of the dispatch loop other than ops[:, :6] (helper method, generator over the level table) is evaluated: every op visited once, in op-list order (C16.columns, also C01/C02.columns); sibling agreement of the 2-valued callback loop with _prop_cpu per opcode, 16 rows each (C16.untouched)',
-        'C17': 'C17.traverse: the five traversal generators evaluated on every digraph on <= 3 nodes (cut at state elements) and forward-edged graphs on 4 nodes against the stated contract; C17.locs: _locs / io_locs / s_locs evaluated on families of names; s_nodes evaluated; visit-counter width; C09.history included',
+        'C17': 'C17.traverse: the five traversal generators evaluated on every digraph on <= 3 nodes (cut at state elements) and forward-edged graphs on 4 nodes against the stated contract; C17.locs: _locs / io_locs / s_locs evaluated on families of names; s_nodes evaluated; visit-counter width; C09.history included; helper methods of Circuit that the traversals call are evaluated with them',
         'C18': 'C18.maps: StilFile._maps evaluated on all chains of <= 5 entries; C18.extract: StilTransformer and StilFile.__init__ applied to the lark parse tree of a fixture STIL text; per-call transformer construction; StilFile methods never store into self',
         'C19': 'TechLib constructor evaluated on the five library texts with bench.parse replaced by a stand-in; pin_index / pin_is_output evaluated for every cell and pin; C01.wiring, C10.function (fork elimination of implementation circuits) included',
         'C20': 'C20.extract: DefTransformer applied to the lark parse tree of a fixture DEF text, every extracted field and the derived wire / via geometry compared with the text; DefWire/DefNet geometry properties (with the helper methods of their classes) evaluated on all short routing lists incl. segments that consist of vias only - undecided (exit 2) when outside the evaluator subset; per-call transformer construction',
